@@ -14,6 +14,7 @@ import (
 	"runtime/debug"
 	"sort"
 	"strings"
+	"time"
 
 	"verif/gen/gomutants"
 	"verif/kit"
@@ -126,7 +127,9 @@ func spaces(tier string) []kit.Space {
 				}
 				return o
 			},
-			Describe: func(i uint64) any { return map[string]string{"construct": constructs[i].Name, "src": constructs[i].Src} },
+			Describe: func(i uint64) any {
+				return map[string]string{"construct": constructs[i].Name, "src": constructs[i].Src}
+			},
 		},
 		{
 			Name: "1.seeds",
@@ -209,7 +212,8 @@ func secondOrder(_ []seedPlan, seeds []gomutants.Seed) []kit.Space {
 			NotInjective: true,
 			Eval: func(i uint64) kit.Outcome {
 				m1, m2, src := locate(i)
-				return judge(m1.Op+" + "+m2.Op, src)
+				_ = m1 // the key names the second operator only: the first is in the witness
+				return judge(m2.Op, src)
 			},
 			Describe: func(i uint64) any {
 				m1, m2, _ := locate(i)
@@ -232,5 +236,6 @@ func main() {
 			"programs are single-file, package main, without imports",
 		},
 		Spaces: spaces,
+		Budget: map[string]time.Duration{"thorough": 30 * time.Minute},
 	})
 }
